@@ -81,7 +81,7 @@ func init() {
 
 // stopKinds is the stop-cause alphabet of C05 / C06.
 var stopKinds = []string{"none", "cancel_out", "cancel_gate", "cancel_in", "cancel_log", "handler_err_cancel", "deadline", "eof", "err", "fin", "rst", "short", "outofseq",
-	"handler_err", "mapper_err", "mapper_cols", "unsupported", "invalid", "undecodable", "refuse", "err_handshake", "err_query", "cancel_handshake", "cancel_query", "dump_unsendable", "cancel_dial"}
+	"handler_err", "handler_panic", "mapper_err", "mapper_cols", "unsupported", "invalid", "undecodable", "refuse", "err_handshake", "err_query", "cancel_handshake", "cancel_query", "dump_unsendable", "cancel_dial"}
 
 func stopHistOpt() gen.HistOpt {
 	o := gen.DefaultHistOpt(limits(), false)
@@ -164,6 +164,7 @@ func drawStop(rt *rapid.T, o gen.HistOpt, kinds []string) *StopCase {
 	c.Handler = rapid.IntRange(0, 2).Draw(rt, "handler_mode")
 	if k == "cancel_gate" {
 		c.Handler = HandlerGated
+		c.HoldMs = rapid.SampledFrom([]int{30, 30, 150, 400}).Draw(rt, "hold_ms")
 	}
 	if c.Handler == HandlerGated {
 		c.GateCall = rapid.IntRange(1, max(1, ntx)).Draw(rt, "gate_call")
@@ -190,7 +191,7 @@ func drawStop(rt *rapid.T, o gen.HistOpt, kinds []string) *StopCase {
 		}
 	}
 	switch k {
-	case "cancel_out", "cancel_in", "cancel_gate", "cancel_log", "cancel_busy", "handler_err", "handler_err_cancel", "mapper_err", "mapper_cols", "unsupported", "invalid", "undecodable":
+	case "cancel_out", "cancel_in", "cancel_gate", "cancel_log", "cancel_busy", "handler_err", "handler_panic", "handler_err_cancel", "mapper_err", "mapper_cols", "unsupported", "invalid", "undecodable":
 		c.QuietAfter = rapid.Bool().Draw(rt, "quiet_after")
 	}
 	c.CustomCtx = rapid.IntRange(0, 3).Draw(rt, "own_context_type") == 0
@@ -408,7 +409,7 @@ func enumStops(f func(*StopCase) bool, kinds []string) int {
 				for i := 0; i <= nsteps; i++ {
 					points = append(points, i)
 				}
-			case k == "cancel_in" || k == "handler_err" || k == "handler_err_cancel":
+			case k == "cancel_in" || k == "handler_err" || k == "handler_err_cancel" || k == "handler_panic":
 				for i := 1; i <= ntx; i++ {
 					points = append(points, i)
 				}
